@@ -5,15 +5,17 @@ CONSTANTS
  CleanerAcquire <- CleanerAcquireSeq
  CleanerDrop <- DropSeq
  NodeMap <- NodeMapVal
- Monitors = {"M1", "M2"}
+ Monitors = {"M1"}
  Cleaners = {"C1"}
- Level <- LevelVal
+ Levels <- LevelsVal
  Privileged = TRUE
  MaxQueries = 1
  GuardMayDrop = TRUE
- GuardMayCrash = TRUE
+ GuardCrashPhases = {"startup", "running", "shutdown"}
  CleanerMayCrash = FALSE
+ CleanersAfterCrash = FALSE
  Excused <- ExcusedVal
+ ExcuseAll = FALSE
 VIEW view
 INVARIANTS TypeOK NoFalseDead NoReclaimFromLive DeadIsDetected ExclusiveCleanup CleanerCrashRecoverable
 CHECK_DEADLOCK FALSE
